@@ -34,7 +34,7 @@ func TestCertStoreLong(t *testing.T) {
 	defer done()
 	rng := rand.New(rand.NewSource(int64(envInt("VERIF_SEED", 1))))
 	puts := envInt("VERIF_PUTS", 3000)
-	g := &gen{t: t, r: r, rng: rng}
+	g := &gen{t: t, r: r, rng: rng, wipeAt: -1}
 	w := &world{g: g, raw: newMap()}
 	r.emit(ev{"ev": "Reset"})
 	w.open("Open", variant{"create", 0, g.randTable(true)})
@@ -103,7 +103,7 @@ func TestCertStoreConcurrent(t *testing.T) {
 	seed := int64(envInt("VERIF_SEED", 1))
 	rng := rand.New(rand.NewSource(seed))
 	puts, readers := envInt("VERIF_PUTS", 400), envInt("VERIF_READERS", 8)
-	g := &gen{t: t, r: r, rng: rng, F: 3}
+	g := &gen{t: t, r: r, rng: rng, F: 3, wipeAt: -1}
 	w := &world{g: g, raw: newMap()}
 	r.emit(ev{"ev": "Reset"})
 	first := uint64(2)
